@@ -289,11 +289,58 @@ def run(tier, seed):
                             r2 = "Undeclared"
                         except Exception as e:
                             r2 = type(e).__name__
+                        if r2 == "Undeclared":
+                            # the same call again (nothing forgotten in between): the refusal is what the caller gets every time
+                            try:
+                                fn(1)
+                                r3 = "returned"
+                            except UndeclaredDependencyError:
+                                r3 = None
+                            except Exception as e:
+                                r3 = "raised " + type(e).__name__
+                            stats["repeated_refusals"] = stats.get("repeated_refusals", 0) + 1
+                            if r3 is not None:
+                                rep.violation("C14:hidden-call-not-refused:repeated-call", "the hidden call (n%d -> n%d) got the undeclared-dependency error on the first call; the same call repeated %s" % (root, tgt, r3), meta)
                         if r2 != "Undeclared":
                             rep.violation("C14:hidden-call-not-refused:after-argument-call", "after the target had once been passed as an argument, a later hidden call (n%d -> n%d) %s instead of raising the undeclared-dependency error" % (
                                 root, tgt, "returned" if r2 is None else "raised " + r2), meta)
             if len(rep.samples) < 2 and len(kinds) > 2:
                 rep.samples.append({"kinds": kinds, "edges": sorted(edges), "forms": {"%d->%d" % k: v for k, v in forms.items()}, "hidden": hidden})
+        # a hidden call BACK to a function that is already executing further up the stack (outside the caller's closure):
+        # the edge caller -> callee is what is validated, whoever else called the callee before
+        BACK = [("mm", {(0, 1)}, {1: 0}, 0), ("mpm", {(0, 1), (1, 2)}, {2: 0}, 0), ("mmm", {(0, 1), (1, 2)}, {2: 0}, 0),
+                ("mmm", {(0, 1), (1, 2)}, {2: 1}, 0), ("mvm", {(0, 1), (0, 2)}, {2: 0}, 0), ("mmm", {(0, 1), (1, 2), (2, 2)}, {2: 0}, 0)]
+        for bi, (ks, edges, hidden, root) in enumerate(BACK):
+            kinds = list(ks)
+            name = "b%d" % bi
+            with open(os.path.join(pdir, name + "_x.py"), "w") as f:
+                f.write("")
+            with open(os.path.join(pdir, name + ".py"), "w") as f:
+                f.write(render_graph(pkg, name, kinds, edges, {}, hidden))
+            meta = {"kinds": kinds, "edges": sorted(edges), "hidden": hidden, "root": root}
+            stats["hidden_back_calls"] = stats.get("hidden_back_calls", 0) + 1
+            try:
+                importlib.invalidate_caches()
+                mod = importlib.import_module("%s.%s" % (pkg, name))
+                src = next(iter(hidden))
+                assert hidden[src] not in expected(kinds, edges, src)[0]
+                for form in ("direct", "batch"):
+                    for j, kj in enumerate(kinds):
+                        if kj in "mv":
+                            getattr(mod, "n%d" % j).forget_all()
+                    try:
+                        fn = getattr(mod, "n%d" % root)
+                        fn(5) if form == "direct" else fn.call_batch([{"x": 5}])
+                        raised = None
+                    except UndeclaredDependencyError:
+                        raised = "Undeclared"
+                    except Exception as e:
+                        raised = type(e).__name__
+                    if raised != "Undeclared":
+                        rep.violation("C14:hidden-call-not-refused:back-to-ancestor", "n%d (automatic version) calls n%d, which is outside its closure and already executing further up the stack: the call %s instead of raising the undeclared-dependency error"
+                                      % (src, hidden[src], "returned" if raised is None else "raised " + raised), meta)
+            except Exception as e:
+                rep.violation("C14:back-call-scenario-raised", "%s: %s" % (type(e).__name__, str(e)[:200]), meta)
         # memento functions defined in a package's __init__ module: the "same package" of their plain helpers is the package
         # itself (not its parent)
         try:
